@@ -9,7 +9,7 @@
    sampled matrix F(s,i) = F[get_1d_index(s,i,n)]; [ts_rates_Q0], [purity_s_Q] are the executable rational instances. *)
 From Coq Require Import Reals QArith Lra List.
 From SpdVerif Require Import Model.FinSum Model.Hom Model.Hom2 Proofs.FinSum_lemmas Proofs.Cx_lemmas Proofs.CMat Proofs.C10_sums
-  Proofs.C10_svd Proofs.C10_expand Proofs.C10_identical Proofs.C10_setup Proofs.C10_exec.
+  Proofs.C10_svd Proofs.C10_expand Proofs.C10_identical Proofs.C10_setup Proofs.C10_exec Gen.HomSrc Proofs.C10_src.
 Local Open Scope R_scope.
 
 (* identical sources (six main grids = one array F), unit phases (zero delay):
@@ -91,6 +91,19 @@ Theorem C10_exec_twin_purity : forall n F,
   Q2R (purity_s_Q n F) = purity_s ROps n (Fmat_R n F) /\ Q2R (purity_i_Q n F) = purity_i ROps n (Fmat_R n F).
 Proof. exact purity_Q_correct. Qed.
 
+(* the two-source function translated from src/spdc/hom.rs on this run (Gen/HomSrc.v: where each of the eight grids is
+   sampled, every index permutation, the products, the three phases, the normalisation) is the model the theorems are about *)
+Theorem C10_source_is_model : forall n A r1 r2 dt J1 J2 ls1 li1 ls2 li2,
+  src_ts_rates n A r1 r2 dt
+    = (ts_rate_ss ROps n A (ts_phase_ss r1 r2 dt), ts_rate_ii ROps n A (ts_phase_ii r1 r2 dt), ts_rate_si ROps n A (ts_phase_si r1 r2 dt)) /\
+  src_ts_tabulate J1 J2 ls1 li1 ls2 li2 n = ts_tabulate J1 J2 ls1 li1 ls2 li2 n /\
+  src_ts_rates n (src_ts_tabulate J1 J2 ls1 li1 ls2 li2 n) (axes_grid ls1 li1 n) (axes_grid ls2 li2 n) dt
+    = setup_ts_rates J1 J2 ls1 li1 ls2 li2 n dt.
+Proof.
+  exact (fun n A r1 r2 dt J1 J2 ls1 li1 ls2 li2 =>
+    conj (src_ts_rates_eq n A r1 r2 dt) (conj (src_ts_tabulate_eq J1 J2 ls1 li1 ls2 li2 n) (src_setup_ts_rates_eq J1 J2 ls1 li1 ls2 li2 n dt))).
+Qed.
+
 (* ---- non-vacuity *)
 Example C10_nonvacuous_norm : jsi_norm ROps (2 * 2) (fun _ => (1, 0)) <> 0.
 Proof. unfold jsi_norm, cnorm2. cbn. lra. Qed.
@@ -119,5 +132,6 @@ Print Assumptions C10_setup_visibilities.
 Print Assumptions C10_range_general.
 Print Assumptions C10_range_partial.
 Print Assumptions C10_range_same_axes.
+Print Assumptions C10_source_is_model.
 Print Assumptions C10_exec_twin.
 Print Assumptions C10_exec_twin_purity.
